@@ -626,12 +626,79 @@ class _Reader:
         return out
 
 
-def _mechanism(M, decl, ctx, rule, detail, parent_decl):
-    """coarse mechanism class of an accepted schema violation (used in signatures; no random values)"""
-    if rule in ("unknown-element", "unknown-attribute", "repeated-child", "missing-required") and (
-            M.el[decl].alias or (rule == "unknown-element" and decl == "mujoco")):
-        return "alias-of-body-row"
-    return "%s" % M.kind_name(decl, ctx)
+META = ("frame", "replicate")
+
+
+def _rejected(v):
+    return v["parse"] != "ok" or v["compile"] != "ok"
+
+
+def _classify_accepted(M, R, mjcf_doc, templates, hroot, r2, n2, decl, ctx, wrap, rule, detail):
+    """mechanism class of a schema violation that was accepted by parser AND compiler (used in signatures; no random values).
+    Every non-generic class is CONFIRMED on the case at hand by a counterfactual load; an unconfirmed case keeps the generic
+    '<rule>:<element kind>' signature.  -> (signature, confirmation dict)"""
+    generic = "schema-violation-accepted:%s:%s" % (rule, M.kind_name(decl, ctx, wrap))
+
+    def verdict(vh, vm):
+        """host vs mutant of a counterfactual pair -> 'rejected' | 'accepted' | 'undecided'"""
+        if vh["parse"] == "ok" and vm["parse"] != "ok" and classify_message(vm["pmsg"], templates)[0] == "schema":
+            return "rejected"                   # the schema stage itself refuses it there (the host passes that stage)
+        if not _rejected(vh):
+            return "rejected" if _rejected(vm) else "accepted"
+        return "undecided"
+
+    # (a) a <frame>/<replicate> child of <mujoco>: admitted by mjXSchema::NameMatch at level 1, never read -> subtree dropped.
+    #     Confirmed by a probe: a geom placed inside that element does not reach the model.  Any OTHER unknown element
+    #     accepted under <mujoco> stays generic.
+    if rule == "unknown-element" and decl == "mujoco" and wrap is None and detail in META:
+        try:
+            probe = ET.fromstring(mjcf_doc.serialize(r2))
+            tgt = [c for c in probe if c.tag == detail][-1]
+            tgt.append(ET.fromstring('<geom name="vf_probe_geom" size="0.1"/>'))
+            m0 = R.L.load_xml_string(mjcf_doc.serialize(hroot))
+            m1 = R.L.load_xml_string(mjcf_doc.serialize(probe))
+            g0, g1 = m0.n("ngeom"), m1.n("ngeom")
+            m0.free()
+            m1.free()
+            if g0 == g1:
+                return "schema-violation-accepted:unknown-element:frame-or-replicate-under-mujoco", dict(probe="geom inside is dropped", ngeom=[g0, g1])
+        except Exception as ex:          # noqa: BLE001  (unconfirmed -> generic)
+            return generic, dict(probe_failed=repr(ex)[:200])
+        return generic, dict(probe="geom inside reaches the model")
+    # (b) the at-most-once cardinality of the body row is not applied to a frame/replicate element's own children.
+    #     Confirmed by re-tagging that element as <body> (attributes a body does not have removed; enclosing meta-elements
+    #     dissolved): the same children are then rejected.
+    if rule == "repeated-child" and decl in META:
+        def as_body(root, node):
+            alt = ET.fromstring(mjcf_doc.serialize(root))
+            a2 = _locate(M, alt, root, node)
+            a2.tag = "body"
+            for k in list(a2.attrib):
+                if k not in M.el["body"].attrs or k == "name":
+                    del a2.attrib[k]
+            return mjcf_doc.unwrap_meta(alt, a2)[0]
+        vh = R.load(mjcf_doc.serialize(as_body(hroot, _locate(M, hroot, r2, n2))))
+        vm = R.load(mjcf_doc.serialize(as_body(r2, n2)))
+        vd = verdict(vh, vm)
+        if vd == "rejected":
+            return "schema-violation-accepted:repeated-child:alias-of-body-row", dict(as_body=(vm["pmsg"] or vm["cmsg"])[:200])
+        return generic, dict(as_body=vd)
+    # (c) an element below <frame>/<replicate>: mjXSchema::Check never descends into the meta-element.  Confirmed by dissolving
+    #     the enclosing meta-elements (children hoisted into the (world)body): same host passes, same mutant is rejected.
+    if wrap is not None:
+        uh, nh = mjcf_doc.unwrap_meta(hroot, _locate(M, hroot, r2, n2))
+        um, nm = mjcf_doc.unwrap_meta(r2, n2)
+        if nm:
+            vh = R.load(mjcf_doc.serialize(uh))
+            vm = R.load(mjcf_doc.serialize(um))
+            vd = verdict(vh, vm)
+            if vd == "rejected":
+                return ("schema-not-enforced-inside-frame-or-replicate:%s" % rule,
+                        dict(outside=(vm["pmsg"] or vm["cmsg"])[:200], element=M.kind_name(decl, ctx)))
+            if vd == "accepted":
+                return "schema-violation-accepted:%s:%s" % (rule, M.kind_name(decl, ctx)), dict(outside="accepted as well")
+            return generic, dict(outside_host=(vh["pmsg"] or vh["cmsg"])[:200])
+    return generic, {}
 
 
 def _apply_rule(G, M, root, node, decl, ctx, rule):
@@ -639,6 +706,11 @@ def _apply_rule(G, M, root, node, decl, ctx, rule):
     rng = G.rng
     attrs = M.attrs(decl, ctx)
     if rule == "unknown-attribute":
+        if decl in META:
+            # XMLreference (Meta elements): "include, frame, and replicate which are outside of the schema"; mjcf.schema: the
+            # validator admits the body surface for them.  Attributes of the two meta-elements THEMSELVES are therefore not
+            # promised to be validated (audit B7); elements nested in them are (wrapped kinds).
+            return None
         pool = ["vfunknown"] + [a for a in M.all_attr_names if a not in attrs and a not in M.el[decl].attrs]
         name = pool[0] if rng.random() < 0.4 else pool[int(rng.integers(len(pool)))]
         if ctx == "default" and rng.random() < 0.4:
@@ -675,20 +747,31 @@ def _apply_rule(G, M, root, node, decl, ctx, rule):
         node.set(n, G.invalid_value(decl, attrs[n], rule))
         return n
     if rule == "missing-required":
-        req = [n for n, a in attrs.items() if a.required and n in node.attrib]
+        req = [n for n, a in attrs.items() if M.is_required(decl, a, ctx, "both") and n in node.attrib]
         if not req:
             return None
         n = req[int(rng.integers(len(req)))]
         del node.attrib[n]
         return n
     if rule == "repeated-child":
-        opts = [(cd, tag, cctx) for cd, card, tag, cctx in M.children(decl, ctx) if card == "?"]
+        kids = M.children(decl, ctx, surface="compilable")
+        opts = [(cd, tag, cctx) for cd, card, tag, cctx in kids if card == "?"]
         if not opts:
             return None
         cd, tag, cctx = opts[int(rng.integers(len(opts)))]
         have = [c for c in node if c.tag == tag]
         for _ in range(2 - len(have)):
             node.append(G.minimal(cd, cctx, tag))
+        # recursive element kinds (body in body, default in default, frame in frame): a NESTED element of the same kind --
+        # carrying its own single `?` child -- before, between or after the duplicates (the validator object of a recursive
+        # row is shared between the levels, so are its at-most-once counters)
+        rec = [(c2, t2, x2) for c2, card, t2, x2 in kids if card == "R" and c2 == decl]
+        if rec and rng.random() < 0.7:
+            nested = _nested_with_child(G, M, rec[0], (cd, tag, cctx))
+            dups = [i for i, c in enumerate(node) if c.tag == tag]
+            where = int(rng.integers(3))
+            node.insert([dups[0], dups[-1], len(node)][where], nested)
+            return tag + ["+nested-before", "+nested-between", "+nested-after"][where]
         return tag
     if rule in ("exclusive", "together", "oneof", "requires"):
         cons = [(k, b) for k, b in M.cons(decl, ctx) if k == rule]
@@ -700,14 +783,17 @@ def _apply_rule(G, M, root, node, decl, ctx, rule):
             i, j = rng.permutation(len(bundles))[:2]
             for n in bundles[i] + bundles[j]:
                 if n not in node.attrib:
-                    node.set(n, G.valid_value(decl, attrs[n]))
+                    if not _set(node, n, G.valid_value(decl, attrs[n])):
+                        return None
         elif rule == "together":
             for n in flat:
                 node.attrib.pop(n, None)
             n = flat[int(rng.integers(len(flat)))]
-            node.set(n, G.valid_value(decl, attrs[n]))
+            if not _set(node, n, G.valid_value(decl, attrs[n])):
+                return None
         elif rule == "requires":
-            node.set(bundles[0][0], G.valid_value(decl, attrs[bundles[0][0]]))
+            if not _set(node, bundles[0][0], G.valid_value(decl, attrs[bundles[0][0]])):
+                return None
             node.attrib.pop(bundles[1][0], None)
         else:
             for b in bundles:
@@ -722,9 +808,29 @@ def _apply_rule(G, M, root, node, decl, ctx, rule):
         i, j = rng.permutation(len(v))[:2]
         for n in (v[i], v[j]):
             if n not in node.attrib:
-                node.set(n, "1 0 0 0" if attrs[n].lo == 4 else G.valid_value(decl, attrs[n], "min"))
+                if not _set(node, n, "1 0 0 0" if attrs[n].lo == 4 else G.valid_value(decl, attrs[n], "min")):
+                    return None
         return v[i] + " " + v[j]
     return None
+
+
+def _set(node, name, value):
+    """set an attribute unless the two sources leave no common conforming value (value is None)"""
+    if value is None:
+        return False
+    node.set(name, value)
+    return True
+
+
+def _nested_with_child(G, M, rec, opt):
+    """a minimal nested element of a recursive kind that carries one instance of the at-most-once child `opt`"""
+    (c2, t2, x2), (cd, tag, cctx) = rec, opt
+    nested = G.minimal(c2, x2, t2)
+    if c2 == "default":
+        nested.set("class", G.fresh("cls"))
+    if not any(c.tag == tag for c in nested):
+        nested.insert(0, G.minimal(cd, cctx, tag))
+    return nested
 
 
 def _can_add(M, node, decl, ctx, name):
@@ -759,14 +865,26 @@ def _conforming_edit(G, M, node, decl, ctx):
             continue
         if n in node.attrib and a.required:
             continue
-        node.set(n, G.valid_value(decl, a, ["min", "max", "any"][int(rng.integers(3))], avoid=""))
-        what.append(n)
-    kids = M.children(decl, ctx)
+        if _set(node, n, G.valid_value(decl, a, ["min", "max", "any"][int(rng.integers(3))], avoid="")):
+            what.append(n)
+    kids = M.children(decl, ctx, surface="compilable")
     if kids and rng.random() < 0.4:
         cd, card, tag, cctx = kids[int(rng.integers(len(kids)))]
         if cd not in ("default",) and not (card == "?" and any(c.tag == tag for c in node)):
             node.append(G.minimal(cd, cctx, tag))
             what.append("<%s>" % tag)
+    # recursive kinds: a nested element with its own at-most-once child placed BEFORE the parent's own instance of that child
+    # (one of each per level is conforming; the levels must be counted separately)
+    rec = [(c2, t2, x2) for c2, card, t2, x2 in kids if card == "R" and c2 == decl]
+    opts = [(cd, tag, cctx) for cd, card, tag, cctx in kids if card == "?"]
+    if rec and opts and rng.random() < 0.5:
+        cd, tag, cctx = opts[int(rng.integers(len(opts)))]
+        own = [i for i, c in enumerate(node) if c.tag == tag]
+        if not own:
+            node.append(G.minimal(cd, cctx, tag))
+            own = [len(node) - 1]
+        node.insert(own[0], _nested_with_child(G, M, rec[0], (cd, tag, cctx)))
+        what.append("<%s><%s/></%s> before <%s>" % (rec[0][1], tag, rec[0][1], tag))
     return what
 
 
@@ -805,12 +923,15 @@ def worker(case):
         cover.setdefault(kind + "|" + rule, {}).setdefault(what, 0)
         cover[kind + "|" + rule][what] += 1
 
-    for decl, ctx in case["kinds"]:
-        kind = M.kind_name(decl, ctx)
+    for kd in case["kinds"]:
+        decl, ctx = kd[0], kd[1]
+        wrap = kd[2] if len(kd) > 2 else None            # 'frame+replicate:direct' ...: hosted below <frame>/<replicate>
+        kind = M.kind_name(decl, ctx, wrap)
+        hk = (decl, ctx, wrap) if wrap else (decl, ctx)
         for rep in range(case.get("rep0", 0), case.get("rep0", 0) + case["reps"]):
             rng = np.random.Generator(np.random.PCG64(core.stable_hash("C37", case["seed"], kind, rep)))
             G = mjcf_doc.DocGen(M, rng)
-            root, node = G.host((decl, ctx))
+            root, node = G.host(hk)
             if M.validate(root):
                 P.count("schema_host_rejected_by_reference")
                 continue
@@ -829,7 +950,7 @@ def worker(case):
                     P.count("schema_host_rejected_nonschema")
                     cov(kind, "conforming", "rejected-other")
                 # second chance: the same chain with the attributes the hand-written reader insists on (coverage of the other rules)
-                root, node = G.host((decl, ctx), enrich=True)
+                root, node = G.host(hk, enrich=True)
                 if M.validate(root):
                     continue
                 hx = mjcf_doc.serialize(root)
@@ -876,9 +997,12 @@ def worker(case):
                 detail = _apply_rule(G, M, r2, n2, decl, ctx, rule)
                 if detail is None:
                     continue
-                viols = M.validate(r2)
+                viols = M.validate(r2)                      # rejected by the schema file OR by XMLreference
                 if len(viols) != 1 or viols[0][0] != rule:
                     P.count("schema_mutant_discarded")
+                    continue
+                if M.validate(r2, "both") != viols:         # ... and by both of them: otherwise no label
+                    P.count("schema_mutant_discarded_sources_disagree")
                     continue
                 x = mjcf_doc.serialize(r2)
                 v = R.load(x)
@@ -897,9 +1021,9 @@ def worker(case):
                     P.case("schema:%s|%s" % (kind, rule))
                     if v["compile"] == "ok":
                         cov(kind, rule, "ACCEPTED")
-                        mech = _mechanism(M, decl, ctx, rule, detail, None)
-                        P.violation("schema-violation-accepted:%s:%s" % (rule, mech),
-                                    dict(kind=kind, rule=rule, detail=detail, xml=x))
+                        sig, conf = _classify_accepted(M, R0, mjcf_doc, templates, ET.fromstring(hx), r2, n2, decl, ctx, wrap, rule,
+                                                       detail.split("+")[0] if rule == "repeated-child" else detail)
+                        P.violation(sig, dict(kind=kind, rule=rule, detail=detail, xml=x, host=hx, confirmation=conf))
                     else:
                         cov(kind, rule, "rejected-compile")
                         P.count("schema_mutants_rejected_by_compiler")
@@ -934,6 +1058,9 @@ def _contract(P, v, xml, kind, what):
         s = v[stage]
         if s in ("escaped", "null-empty", "ok-with-error"):
             msg = v["pmsg"] if stage == "parse" else v["cmsg"]
+            if s == "escaped":       # same mechanism, same key as the native harness (h_xmlfuzz 'V kind=ESCAPED-ERROR')
+                P.violation("contract:ESCAPED-ERROR:" + re.sub(r"[#\d]+", "#", msg)[:60], dict(kind=kind, what=what, stage=stage, xml=xml, message=msg))
+                return True
             P.violation("contract:%s-%s:%s" % (stage, s, re.sub(r"[\d']+", "#", msg)[:50]), dict(kind=kind, what=what, xml=xml, message=msg))
             return True
     return False
@@ -967,6 +1094,25 @@ def _schema(ctx, M, scratch):
         for k in kinds:
             cases.append(dict(kinds=[list(k)], seed=ctx.seed, rep0=rep, reps=1, nconf=nconf,
                               log=str(scratch / ("doc-%s-%s-%d.xml" % (k[0], k[1], rep)))))
+    # element kinds of the kinematic tree hosted below <frame>/<replicate> chains (where mjXSchema::Check does not descend by itself).
+    # quick: per kind and rep one <frame> host, one <replicate> host (direct / in-a-nested-body alternating) and one nested chain;
+    # thorough: every (chain, form) with half the repetitions
+    wrapped = sorted(M.wrapped)
+    chains = ["+".join(c) for c in M.WRAP_CHAINS]
+    nwrap = 0
+    for rep in range(reps if ctx.quick else max(1, reps // 2)):
+        for k in wrapped:
+            chain, form = k[2].split(":")
+            if ctx.quick:
+                nested = chains[2 + core.stable_hash("C37wrap", ctx.seed, k[0], rep) % (len(chains) - 2)]
+                want = {"frame": ("direct", "inbody")[rep % 2], "replicate": ("inbody", "direct")[rep % 2],
+                        nested: ("direct", "inbody")[core.stable_hash("C37form", ctx.seed, k[0], rep) % 2]}
+                if want.get(chain) != form:
+                    continue
+            nwrap += 1
+            cases.append(dict(kinds=[list(k)], seed=ctx.seed, rep0=rep, reps=1, nconf=nconf,
+                              log=str(scratch / ("doc-%s-%s-%s-%d.xml" % (k[0], k[1], k[2].replace(":", "_"), rep)))))
+    ctx.count("schema_wrapped_hosts_planned", nwrap)
     results = par.run("vf.props.c37", "worker", cases, nproc=nproc, timeout=ctx.pick(300, 600))
     cover, matrix = {}, {}
     for c, r in zip(cases, results):
@@ -1009,6 +1155,10 @@ def _schema(ctx, M, scratch):
     ctx.extra["schema_element_kinds"] = dict(total=len(kinds), with_host_accepted=sum(1 for k, d in table.items() if "accepted" in d.get("conforming", "")),
                                              never_accepted=[k for k in sorted(table) if "accepted" not in table[k].get("conforming", "")])
     ctx.count("schema_element_kinds", len(kinds))
+    ctx.count("schema_wrapped_kinds", len(M.wrapped))
+    # where the schema file and XMLreference.rst differ (outside C37: a defect of mjcf.schema / the generated XSD, reported once)
+    ctx.extra["schema_file_vs_XMLreference"] = ["%s.%s: %s" % d for d in M.doc_disagreements]
+    ctx.count("schema_file_vs_XMLreference_disagreements", len(M.doc_disagreements))
     ctx.count("schema_cells_hit", len(cover))
     ctx.samples.append({"schema": "element kinds %d (incl. default-context projections); per kind %d hosts x (%d conforming variants + every applicable rule)" % (len(kinds), reps, nconf),
                         "example_cell": next(iter(sorted(table.items())), None)})
@@ -1090,7 +1240,7 @@ def replay(ctx, path):
             return
         v = res
         templates = schema_templates()
-        if rec["signature"].startswith("schema-violation-accepted") and v["parse"] == "ok" and v["compile"] == "ok":
+        if rec["signature"].startswith(("schema-violation-accepted", "schema-not-enforced-inside-frame-or-replicate")) and v["parse"] == "ok" and v["compile"] == "ok":
             ctx.violation(rec["signature"], d)
         elif rec["signature"].startswith("conforming-rejected") and v["parse"] != "ok" and classify_message(v["pmsg"], templates)[0] == "schema":
             ctx.violation(rec["signature"], d)
